@@ -113,16 +113,17 @@ type lifeClient struct {
 }
 
 type lifeRun struct {
+	sessions  map[string]tls.ClientSessionCache
 	scheduled bool
 	stormSeq  int
-	srv      *redis.Server
-	double   *double
-	plain    int
-	tlsPort  int
-	cn       string
-	pw       string
-	clients  map[string]*lifeClient
-	baseline int
+	srv       *redis.Server
+	double    *double
+	plain     int
+	tlsPort   int
+	cn        string
+	pw        string
+	clients   map[string]*lifeClient
+	baseline  int
 }
 
 var portCounter int
@@ -207,6 +208,15 @@ func (lr *lifeRun) dial(kind string, cert string) (net.Conn, error) {
 	}
 	p := getPKI()
 	cfg := &tls.Config{RootCAs: p.caPool, ServerName: "localhost", MinVersion: tls.VersionTLS12}
+	// clients keep a session cache per credential, as real clients do: a second connection with the same credential
+	// resumes the TLS session of the first (no certificate is presented again on a resumed session)
+	if lr.sessions == nil {
+		lr.sessions = map[string]tls.ClientSessionCache{}
+	}
+	if lr.sessions[cert] == nil {
+		lr.sessions[cert] = tls.NewLRUClientSessionCache(8)
+	}
+	cfg.ClientSessionCache = lr.sessions[cert]
 	if cert != "none" {
 		c := p.client[cert]
 		cfg.Certificates = []tls.Certificate{c}
